@@ -320,6 +320,16 @@ def run(ctx):
     from .C12 import _reader_checks
     _reader_checks(ctx, "C14-ROWS", "read_batch_slice", "slice")
     _reader_checks(ctx, "C14-ROWS", "read_batch_idx", "idx")
+    from .C07 import _Relabel
+    from .C16 import check_batch_tasks, check_run_worker
+    ctx.rule("C14-PART", "file path: position p of the accumulated likelihoods is row M[p] only if the batches come back as contiguous, ordered slices of the requested index "
+                         "array (shared with C16-P / C16-RUN).")
+    check_batch_tasks(_Relabel(ctx, {"C16-P": "C14-PART"}))
+    check_run_worker(_Relabel(ctx, {"C16-RUN": "C14-PART"}))
+    from .C06 import check_inmem_api
+    ctx.rule("C14-INMEM", "in-memory path: the packed library reaches the sampler as packed - rows whole and in library order (no re-ordering / column-wise shuffling "
+                          "between packing and the call) (shared with C06-INMEM).")
+    check_inmem_api(_Relabel(ctx, {"C06-INMEM": "C14-INMEM"}))
     ctx.floor("C14-RAISE", ctx.count("C14-RAISE"), 4)
     ctx.floor("C14-CHAIN", ctx.count("C14-CHAIN"), 16)
     ctx.assume("Generator.choice(replace=False) returns distinct rows; np.arange(0, n, 1) is the identity map")
